@@ -1,5 +1,6 @@
 import Driver.Common
 import CoapVerif.Model.PoolOptions
+import CoapVerif.Model.OptionGlue
 import CoapVerif.Spec.SortedMultiset
 /-!
 Driver for C15.  `drv_c15 model` replays operation lines on `Model/Options*.lean` / `Model/PoolOptions.lean` and prints
@@ -25,6 +26,9 @@ structure St where
   mem : Mem
   cur : Slot
   oth : Slot
+  /-- options kept by the observation registered last; whether it is still registered -/
+  obs : Option (Options View) := none
+  obsLive : Bool := false
 
 def St.msg (s : St) : Msg := ⟨s.mem, s.cur.opts, s.cur.vb, s.cur.orig⟩
 def St.put (s : St) (r : Msg) : St := { s with mem := r.mem, cur := ⟨r.opts, r.vb, r.orig⟩ }
@@ -90,6 +94,41 @@ def step (s : St) (ws : List String) : Out :=
       let views := Msg.selectOwn o idxs
       if s.pool then runM s (poolEdit s (s.msg.resetOptionsTo g gb views) true)
       else runM s (rawEdit s (fun m o b => Options.resetOptionsTo g m o b views))
+  | "setresp" :: _code :: cf :: body :: _n :: items =>
+    match cf.toNat?, parseItems items with
+    | some cf, some inp =>
+      if !s.pool then ("bad-op", some s) else
+      let (m1, views) := inp.foldl (fun (acc : Mem × List (Opt View)) x =>
+        let (m', v) := acc.1.allocBytes x.2; (m', acc.2 ++ [(x.1, v)])) (m, [])
+      let s1 := { s with mem := m1 }
+      runM s1 (poolEdit s1 (s1.msg.setResponse g gb cf (body == "1") views) true)
+    | _, _ => ("bad-op", some s)
+  | ["observe"] =>
+    if !s.pool then ("bad-op", some s) else
+    runM s (do
+      let (m1, kept) ← observeRequest g m o
+      match kept with
+      | none => pure ({ s with mem := m1 }, s!"ret other {vbLen s}")
+      | some c => pure ({ s with mem := m1, obs := some c, obsLive := true }, s!"ret ok {vbLen s}"))
+  | ["obsopts"] =>
+    if !s.pool then ("bad-op", some s) else
+    match s.obs with
+    | none => fin s "ret notfound 0"
+    | some c => fin s s!"ret ok {fmtItems ((⟨m, c, s.cur.vb, s.cur.orig⟩ : Msg).items)}"
+  | ["obsreq"] =>
+    if !s.pool then ("bad-op", some s) else
+    match s.obs, s.obsLive with
+    | some c, true => runM s (do let (m1, its) ← observationRequestItems g gb m c; pure ({ s with mem := m1 }, s!"ret ok {fmtItems its}"))
+    | _, _ => fin s "ret notfound 0"
+  | ["obscancel"] =>
+    if !s.pool then ("bad-op", some s) else
+    match s.obs, s.obsLive with
+    | some c, true =>
+      runM s (do let (m1, its) ← cancelRequestItems g gb m c; pure ({ s with mem := m1, obsLive := false }, s!"ret ok {fmtItems its}"))
+    | _, _ => fin s "ret notfound 0"
+  | ["recycle"] =>
+    if !s.pool then ("bad-op", some s) else
+    runM s (do let r ← s.msg.reset; let s' := s.put r; pure (s', s!"ret ok {vbLen s'}"))
   | ["resetslice", k, n] =>
     match k.toNat?, n.toNat? with
     | some k, some n =>
@@ -225,12 +264,12 @@ def newState (ws : List String) : Option St :=
     let b ← b.toNat?
     let (m1, b1) := Mem.alloc [] b
     let (m2, b2) := m1.alloc b
-    pure ⟨false, b, m2, ⟨Options.make c, b1, b1⟩, ⟨Options.make 0, b2, b2⟩⟩
+    pure { pool := false, bufSize := b, mem := m2, cur := ⟨Options.make c, b1, b1⟩, oth := ⟨Options.make 0, b2, b2⟩ }
   | ["new", "pool", c] => do
     let c ← c.toNat?
     let a := Msg.new [] c
     let b := Msg.new a.mem CoapVerif.Generated.OptionList.newMessageOptionsCap
-    pure ⟨true, 0, b.mem, ⟨a.opts, a.vb, a.orig⟩, ⟨b.opts, b.vb, b.orig⟩⟩
+    pure { pool := true, bufSize := 0, mem := b.mem, cur := ⟨a.opts, a.vb, a.orig⟩, oth := ⟨b.opts, b.vb, b.orig⟩ }
   | _ => none
 
 def modelLine (st : Option St) (line : String) : String × Option St :=
@@ -264,6 +303,12 @@ def parseOp (ws : List String) : Option Op :=
   | "resetto" :: _ :: items => do pure (.resetTo (← parseItems items))
   | "resetself" :: idxs => do pure (.resetSelf (← idxs.mapM String.toNat?))
   | ["resetslice", k, n] => do pure (.resetSlice (← k.toNat?) (← n.toNat?))
+  | "setresp" :: _ :: cf :: body :: _ :: items => do pure (.setResponse (← cf.toNat?) (body == "1") (← parseItems items))
+  | ["observe"] => some .observe
+  | ["obsopts"] => some .obsOpts
+  | ["obsreq"] => some .obsReq
+  | ["obscancel"] => some .obsCancel
+  | ["recycle"] => some .recycle
   | ["clone"] => some .clone
   | ["swap"] => some .swap
   | ["reset"] => some .reset
@@ -303,7 +348,7 @@ def judgeLine (st : Option RefState) (line : String) : String × Option RefState
   | opS :: rest =>
     match parseOp (words opS), parseObs (" | ".intercalate rest) with
     | some op, some ob =>
-      let st0 : RefState := match st with | some s => s | none => ⟨.raw, 0, ⟨[], some 0⟩, ⟨[], some 0⟩⟩
+      let st0 : RefState := match st with | some s => s | none => { kind := .raw, bufSize := 0, cur := ⟨[], some 0⟩, oth := ⟨[], some 0⟩ }
       match op, st with
       | .new .., _ | _, some _ =>
         let (v, st') := judgeStep st0 op ob
